@@ -110,14 +110,19 @@ let of_tables (t : Dfa.tables) : t =
         List [Atom "ccompadd"; of_opt of_levels t.Dfa.t_ccompadd]]
 
 let alltables_of (v : t) : Dfa.alltables =
-  match v with
-  | List [Atom "alltables"; _needs; cmds; states; main; subtrans; csub; subwords] ->
-      { Dfa.a_commands = List.map (fun c -> cl (string_ c)) (lfield "commands" cmds);
-        a_states = List.map n_ (lfield "states" states);
+  let build cmds states main subtrans csub subwords subacc =
+      { Dfa.a_commands = List.map (fun c -> cl (string_ c)) (list_ (field "commands" cmds));
+        a_states = List.map n_ (list_ (field "states" states));
         a_main = tables_of (field "main" main);
-        a_subtrans = List.map row_of (lfield "subtrans" subtrans);
+        a_subtrans = List.map row_of (list_ (field "subtrans" subtrans));
         a_csub = levels_of (field "csub" csub);
         a_subwords = List.map (fun s -> match s with
             | List [pi; id; t] -> ((n_ pi, n_ id), tables_of t)
-            | _ -> raise (Shape "subword tables")) (lfield "subwords" subwords) }
+            | _ -> raise (Shape "subword tables")) (list_ (field "subwords" subwords));
+        a_subaccepting = subacc } in
+  match v with
+  | List [Atom "alltables"; _needs; cmds; states; main; subtrans; csub; subwords] ->
+      build cmds states main subtrans csub subwords []
+  | List [Atom "alltables"; _needs; cmds; states; main; subtrans; csub; subwords; subacc] ->
+      build cmds states main subtrans csub subwords (List.map ids_row_of (list_ (field "subaccepting" subacc)))
   | v -> raise (Shape ("alltables: " ^ to_string v))
